@@ -596,8 +596,115 @@ fn reopen_check(dir: &str) -> i32 {
   if bad.iter().any(|b| *b > 0) { 1 } else { 0 }
 }
 
+// ------------------------------------------------------------------------------------------------ truncate check (C18, file / anonymous backends)
+fn truncate_one(dir: &str, backend: &str, fl: Freelist, bad: &mut u32) {
+  use rarena_allocator::unsync::Arena as U;
+  let p = format!("{dir}/truncate_{backend}.arena");
+  let _ = std::fs::remove_file(&p);
+  let cap = 4096u32;
+  for target in [8192usize, 2048, 100, 0, 4096, 300] {
+    let _ = std::fs::remove_file(&p);
+    let o = Options::new().with_capacity(cap).with_freelist(fl).with_reserved(3);
+    let mut a: U = match backend {
+      "file" => unsafe { o.with_create_new(true).with_read(true).with_write(true).map_mut::<U, _>(&p).expect("create") },
+      _ => o.map_anon::<U>().expect("anon"),
+    };
+    let mut live = Vec::new();
+    {
+      let mut hs = Vec::new();
+      for (i, n) in [40u32, 24, 100].iter().enumerate() {
+        let mut b = a.alloc_bytes(*n).expect("alloc");
+        b.put_slice(&vec![0x21 * (i as u8 + 1); *n as usize]).unwrap();
+        hs.push(b);
+      }
+      let mut it = hs.into_iter();
+      let mut h0 = it.next().unwrap();
+      let h1 = it.next().unwrap();
+      let mut h2 = it.next().unwrap();
+      drop(h1);
+      for h in [&mut h0, &mut h2] {
+        unsafe { h.detach() };
+        live.push((h.offset(), h[..].to_vec()));
+      }
+    }
+    let (al, di, dofs, ms) = (a.allocated(), a.discarded(), a.data_offset(), a.minimum_segment_size());
+    let r = a.truncate(target);
+    let want = target.max(al);
+    let label = format!("[{backend} truncate({target}) allocated={al}]");
+    if r.is_err() {
+      println!("NATIVE T1 violated: {label} failed: {:?}", r.err());
+      *bad += 1;
+      continue;
+    }
+    if a.capacity() != want {
+      println!("NATIVE T1 violated: {label} capacity() = {} instead of {want}", a.capacity());
+      *bad += 1;
+    }
+    if (a.allocated(), a.discarded(), a.data_offset(), a.minimum_segment_size()) != (al, di, dofs, ms) {
+      println!("NATIVE T1 violated: {label} allocated/discarded/data_offset/minimum segment size changed");
+      *bad += 1;
+    }
+    let mem = a.memory();
+    if mem.len() != want {
+      println!("NATIVE T1 violated: {label} memory() has {} bytes", mem.len());
+      *bad += 1;
+    }
+    for (o, bytes) in &live {
+      if mem.len() < o + bytes.len() || &mem[*o..o + bytes.len()] != &bytes[..] {
+        println!("NATIVE T1 violated: {label} bytes of the live range at {o} changed");
+        *bad += 1;
+      }
+    }
+    // allocations succeed exactly when they fit the new capacity (fresh space; the freed 24-byte range may serve small ones)
+    let room = want - al;
+    if room >= 64 {
+      match a.alloc_bytes(room as u32) {
+        Ok(mut b) => unsafe { b.detach() },
+        Err(e) => {
+          println!("NATIVE T1 violated: {label} a request of the whole new tail ({room}) is refused: {e}");
+          *bad += 1;
+        }
+      }
+    }
+    if a.alloc_bytes(64).is_ok() && room < 64 {
+      println!("NATIVE T1 violated: {label} a request beyond the new capacity is granted");
+      *bad += 1;
+    }
+  }
+  if backend == "file" {
+    // read-only: fails without effect
+    let r = unsafe { Options::new().with_reserved(3).with_read(true).map::<U, _>(&p) };
+    if let Ok(mut a) = r {
+      let before = (a.capacity(), a.allocated());
+      if a.truncate(100_000).is_ok() || (a.capacity(), a.allocated()) != before {
+        println!("NATIVE T3 violated: truncate on a read-only arena succeeded or changed it");
+        *bad += 1;
+      }
+    }
+  }
+  let _ = std::fs::remove_file(&p);
+}
+
+fn truncate_check(dir: &str) -> i32 {
+  let mut bad = 0u32;
+  for fl in [Freelist::Optimistic, Freelist::None] {
+    truncate_one(dir, "file", fl, &mut bad);
+    truncate_one(dir, "anon", fl, &mut bad);
+  }
+  if bad == 0 {
+    println!("NATIVE T1 holds");
+    println!("NATIVE T3 holds");
+    0
+  } else {
+    1
+  }
+}
+
 fn main() {
   let args: Vec<String> = std::env::args().collect();
+  if args[1] == "--truncate-check" {
+    std::process::exit(truncate_check(&args[2]));
+  }
   if args[1] == "--reopen-check" {
     std::process::exit(reopen_check(&args[2]));
   }
